@@ -532,9 +532,68 @@ def st_case(draw):
             "ladder_info": sorted(ladder_info)}
 
 
+def eval_bad_cell(case):
+    """one data cell of a column that feeds an attribute does not convert (text in an int column, ...): no object may be
+    produced from that row - the value could not be 'obtained by converting the cell at the reported origin'"""
+    import ak.xlsread as X
+    grid, title_row, lead = build_grid(case)
+    ws = WS(case.get("title", "Sheet1"), grid)
+    attrs = case["attrs"]
+    nid = sum(1 for a in attrs if a.get("id"))
+
+    class Obj(X.XlsObject):
+        _ATTRS = [a["name"] for a in attrs]
+        _NUM_ID_ATTRS = nid
+    r_bad, c_bad, attr_name = case["bad_cell"]
+    got, raised = [], None
+    try:
+        for o in X.iter_table(ws, Obj, make_rules(X, case), stop_on=case["end"], ladder_format=bool(case["ladder"])):
+            got.append(o)
+    except Exception as e:   # noqa
+        raised = e
+    f = []
+    classes = ["unconvertible_cell", "reader_raises" if raised is not None else "reader_does_not_raise"]
+    if raised is None and len(got) > r_bad and got[r_bad] is not None:
+        o = got[r_bad]
+        try:
+            val = getattr(o, attr_name)
+            org = o.get_attr_origin(attr_name)
+        except Exception as e:   # noqa
+            val, org = "<%s>" % type(e).__name__, "?"
+        f.append(("object_produced_from_unconvertible_cell", f"data row {r_bad}: attribute {attr_name} = {val!r}, origin {org!r}, "
+                  f"cell holds {case['rows'][r_bad][c_bad]!r}; grid={grid!r}"))
+    return Outcome(raised is not None, classes, f, key=[case["rows"], case["bad_cell"], case["end"], case["ladder"]])
+
+
+@st.composite
+def st_bad_cell_case(draw):
+    case = draw(st_case())
+    case["entry"] = "iter_table"
+    cols = case["columns"]
+    cands = []
+    byname = {a.get("col", "").strip(): a for a in case["attrs"] if a["kind"] in ("simple", "optional")}
+    for ci, c in enumerate(cols):
+        a = byname.get(c["title"].strip())
+        if a is not None and a["conv"] in ("int", "bool", "list", "set"):
+            cands.append((ci, a))
+    if not cands or not case["rows"]:
+        case["bad_cell"] = [0, 0, case["attrs"][0]["name"]]
+        case["rows"] = []          # nothing to spoil: degenerates to an empty table
+        return case
+    ci, a = draw(st.sampled_from(cands))
+    r = draw(st.integers(0, len(case["rows"]) - 1))
+    bad = {"int": draw(st.sampled_from(["20 (tbc)", "x", 2.5, "7"])), "bool": draw(st.sampled_from(["maybe", 2, "yes"])),
+           "list": draw(st.sampled_from([5, 2.5, True])), "set": draw(st.sampled_from([5, 2.5, True]))}[a["conv"]]
+    case["rows"][r][ci] = bad
+    case["bad_cell"] = [r, ci, a["name"]]
+    return case
+
+
 def parts(tier):
     k = 1 if tier == "quick" else 40
-    return [Part("sheets", evaluate, strategy=st_case, examples=6000 * k)]
+    return [Part("sheets", evaluate, strategy=st_case, examples=6000 * k),
+            Part("unconvertible_cells", eval_bad_cell, strategy=st_bad_cell_case, examples=1500 * k,
+                 note="a cell that does not convert: the row must not yield an object")]
 
 
 TECHNIQUE = "property-based testing (Hypothesis) with a reference reader written from the statement (raw-sheet end rule, fill-down, title binding, converters) and a metamorphic ladder relation; origins checked coordinate by coordinate"
